@@ -100,8 +100,35 @@ package vm
 //@ def opIs(m, o) = old(m.Program.Instructions[m.P]) == o
 //@ def top(m, k) = m.Stack[len(m.Stack)-1-k]
 
+// ---- C12: the step never panics on a stack typed the way the compiler's discipline (tstack) says.
+// rtTyped(m): what the current instruction needs from the run-time stack; the compile-time rule opTyped is the same
+// statement over the static image. (That the run-time stack follows the image, instruction after instruction, is
+// the link that is assumed here.)
+//@ def opc(m) = m.Program.Instructions[m.P]
+//@ def isNum(x) = typeis(x, "*machine.MonetaryInt")
+//@ def isMon(x) = typeis(x, "machine.Monetary")
+//@ def isFund(x) = typeis(x, "machine.Funding")
+//@ def numv(x) = val(as(x, "*machine.MonetaryInt"))
+//@ def rtTyped(m) = m.P < len(m.Program.Instructions) && (opc(m) == program.OP_APUSH ==> m.P + 3 <= len(m.Program.Instructions))
+//@ ... && ((opc(m) == program.OP_IADD || opc(m) == program.OP_ISUB) ==> len(m.Stack) >= 2 && isNum(top(m, 0)) && isNum(top(m, 1)))
+//@ ... && ((opc(m) == program.OP_MONETARY_ADD || opc(m) == program.OP_MONETARY_SUB) ==> len(m.Stack) >= 2 && isMon(top(m, 0)) && isMon(top(m, 1)))
+//@ ... && (opc(m) == program.OP_MONETARY_NEW ==> len(m.Stack) >= 2 && isNum(top(m, 0)) && typeis(top(m, 1), "machine.Asset"))
+//@ ... && (opc(m) == program.OP_BUMP ==> len(m.Stack) >= 1 && isNum(top(m, 0)) && 0 <= numv(top(m, 0)) && numv(top(m, 0)) < len(m.Stack) - 1)
+//@ ... && ((opc(m) == program.OP_DELETE || opc(m) == program.OP_PRINT || opc(m) == program.OP_ASSET) ==> len(m.Stack) >= 1)
+//@ ... && (opc(m) == program.OP_MAKE_ALLOTMENT ==> len(m.Stack) >= 1 && isNum(top(m, 0)) && 0 <= numv(top(m, 0)) && numv(top(m, 0)) <= len(m.Stack) - 1 && (forall j4 in 0..numv(top(m, 0)) :: typeis(m.Stack[len(m.Stack)-2-j4], "machine.Portion")))
+//@ ... && ((opc(m) == program.OP_TAKE_ALL || opc(m) == program.OP_TAKE_ALWAYS) ==> len(m.Stack) >= 2 && isMon(top(m, 0)) && typeis(top(m, 1), "machine.AccountAddress"))
+//@ ... && ((opc(m) == program.OP_TAKE || opc(m) == program.OP_TAKE_MAX) ==> len(m.Stack) >= 2 && isMon(top(m, 0)) && isFund(top(m, 1)))
+//@ ... && (opc(m) == program.OP_FUNDING_ASSEMBLE ==> len(m.Stack) >= 1 && isNum(top(m, 0)) && 0 <= numv(top(m, 0)) && numv(top(m, 0)) <= len(m.Stack) - 1 && (forall j5 in 0..numv(top(m, 0)) :: isFund(m.Stack[len(m.Stack)-2-j5])) && (numv(top(m, 0)) >= 1 ==> isFund(m.Stack[len(m.Stack)-2])))
+//@ ... && ((opc(m) == program.OP_FUNDING_SUM || opc(m) == program.OP_FUNDING_REVERSE || opc(m) == program.OP_REPAY) ==> len(m.Stack) >= 1 && isFund(top(m, 0)))
+//@ ... && (opc(m) == program.OP_ALLOC ==> len(m.Stack) >= 2 && typeis(top(m, 0), "machine.Allotment") && isMon(top(m, 1)))
+//@ ... && (opc(m) == program.OP_SEND ==> len(m.Stack) >= 2 && typeis(top(m, 0), "machine.AccountAddress") && isFund(top(m, 1)))
+//@ ... && (opc(m) == program.OP_TX_META ==> len(m.Stack) >= 2 && typeis(top(m, 0), "machine.String"))
+//@ ... && (opc(m) == program.OP_ACCOUNT_META ==> len(m.Stack) >= 3 && typeis(top(m, 0), "machine.AccountAddress") && typeis(top(m, 1), "machine.String"))
+//@ ... && (opc(m) == program.OP_SAVE ==> len(m.Stack) >= 2 && typeis(top(m, 0), "machine.AccountAddress") && (typeis(top(m, 1), "machine.Asset") || isMon(top(m, 1))) && has(m.Balances, as(top(m, 0), "machine.AccountAddress")))
 //@ func (*vm.Machine).tick
 //@   requires minv(m)
+//@   assumes rtTyped(m) && m.TxMeta != nil && m.AccountsMeta != nil // C12
+//@   nopanic // C12
 // compiler side condition: OP_TAKE_ALWAYS is only emitted after OP_TAKE_MAX, whose "missing" monetary it consumes; that value is never negative
 //@   assumes m.Program.Instructions[m.P] == program.OP_TAKE_ALWAYS && len(m.Stack) > 0 && typeis(m.Stack[len(m.Stack)-1], "machine.Monetary") ==> val(as(m.Stack[len(m.Stack)-1], "machine.Monetary").Amount) >= 0
 // compiler side condition: the monetary operand of OP_SAVE is a resource pushed by the two APUSH before it (a literal, a
@@ -135,8 +162,14 @@ package vm
 //@   loop 5 invariant 0 - 1 <= rangeindex && rangeindex < len(funding.Parts) && postingsOK(m.Postings)
 //@   loop 5 invariant forall a machine.AccountAddress, t machine.Asset :: sentv(m.Postings, a, t) == old(sentv(m.Postings, a, t)) + ite(funding.Asset == t, sumFor(funding.Parts[:rangeindex+1], a), 0)
 //@   loop 5 invariant forall a machine.AccountAddress, t machine.Asset :: recvd(m.Postings, a, t) == old(recvd(m.Postings, a, t)) + ite(funding.Asset == t && dest == a, total(funding.Parts[:rangeindex+1]), 0)
+// C12 hints: how far the popping loops have eaten into the stack the instruction found
+//@   loop 1 invariant mark(i) && 0 <= i && i <= numv(old(top(m, 0))) && len(m.Stack) == old(len(m.Stack)) - 1 - i && len(portions) == numv(old(top(m, 0))) // C12
+//@   loop 1 invariant forall j6 in 0..len(m.Stack) :: m.Stack[j6] == old(m.Stack)[j6] // C12
+//@   loop 2 invariant mark(i) && len(m.Stack) == old(len(m.Stack)) - 1 - i && n == numv(old(top(m, 0))) // C12
+//@   loop 2 invariant forall j7 in 0..len(m.Stack) :: m.Stack[j7] == old(m.Stack)[j7] // C12
+//@   loop 4 invariant 0 - 1 <= i && i < len(parts) // C12
 //@   property C01 C03
-//@   alsofor C08
+//@   alsofor C08 C12
 
 // Execute: the invariant of tick holds at every step, so D never increases over a whole run.
 //@ func (*vm.Machine).Execute
